@@ -93,7 +93,7 @@ M = [
  ("c16_centrifugal_sign", "pyins/earth.py", "    g0_g[0] = RATE**2 * rp * sin_lat", "    g0_g[0] = -RATE**2 * rp * sin_lat", ["C16"], "violation"),
  ("c16_rate_vertical_sign", "pyins/earth.py", "    result[:, 2] = -RATE * np.sin(np.deg2rad(lat))", "    result[:, 2] = RATE * np.sin(np.deg2rad(lat))", ["C16"], "violation"),
  ("c16_polar_radius", "pyins/transform.py", "    r_e[2] = ((1 - earth.E2) * re + alt) * sin_lat", "    r_e[2] = (re + alt) * sin_lat", ["C16"], "violation"),
- ("c16_perturb_east_radius", "pyins/transform.py", "    lla[:, 1] += np.rad2deg(dr_n[:, 1] / rp)", "    lla[:, 1] += np.rad2deg(dr_n[:, 1] / re)", ["C16", "C18"], "violation"),
+ ("c16_perturb_east_radius", "pyins/transform.py", "    lla[:, 1] += np.rad2deg(dr_n[:, 1] / rp)", "    lla[:, 1] += np.rad2deg(dr_n[:, 1] / rn)", ["C16", "C18"], "violation"),
  ("c16_frame_pole_sign", "pyins/transform.py", "        return Rotation.from_euler('ZY', [lon, -90 - lat], degrees=True).as_matrix()", "        return Rotation.from_euler('ZY', [lon, 90 - lat], degrees=True).as_matrix()", ["C16"], "violation"),
  ("c16_gravity_height_term", "pyins/earth.py", "            * (1 - 2 * alt / A))", "            * (1 - 2 * alt / A) ** 1.0)", ["C16"], "quiet-or-drift"),
  ("c03_inertial_longitude_rate_dropped", "pyins/sim.py", "    lla_inertial[:, 1] += np.rad2deg(earth.RATE) * time\n", "", ["C03"], "violation"),
